@@ -98,6 +98,18 @@ one-level summaries computed to a fixpoint over all units) plus Engine I (sa/int
                                reset by a callee (sa/lib_c13glob.py).
   R13.30 position travels      `if (!X->F) error_tok(X->P, ..)`: pairs (F, P) derived; a function that stores F into an object field by field stores P too.
 
+  R13.31 flush examined       a function that writes a file through a stream opened for writing (fopen "w"/"a"/"+", stdout as "-", a function returning such a stream) examines the
+                               RESULT OF FLUSHING it (fflush/fclose in a condition that ends the process or the function, ferror after an fflush, or a helper that does so for its
+                               parameter on every way through it: derived) after its last write and before it gives the stream up; ferror() alone sees only what has already left
+                               the stdio buffer, so an output smaller than the buffer on a full disk would be a silent success (sa/lib_c13out.py).
+  R13.32 postfix forms        the parser function that owns the postfix-operator loop (derived: the loop tests the token against "[", ".", "->") leads every form it recognises
+                               into that loop; a `return` before the loop is a postfix-expression (C11 6.5.2p1: a compound literal is one) that cannot be subscripted or followed
+                               by . -> ++ (sa/lib_c13post.py).
+  R13.33 compatible types     is_compatible() interpreted on pairs of separately built equal types (typedef copies of scalars, pointers, arrays of equal / unknown length, functions):
+                               true on every path; _Generic without `default` is otherwise a diagnostic on a valid program (sa/lib_c13post.py).
+  R13.17 (extended)            every aggregate shape of the psABI vocabulary behind k integer and l floating scalar arguments for the whole register-exhaustion grid (one class run out,
+                               the other not): the sites that decide "in registers" (push as memory argument / pop into registers) agree, the pushed slots are released.
+
 Not implemented (stated, not claimed): error_at's pointer lies inside current_file->contents (R13.6, second clause);
 the two asserts of hashmap.c:rehash (R13.4, listed).
 """
@@ -377,6 +389,8 @@ def run(P, rep, tier):
     r1327(P, rep)
     r1328(P, W, rep)
     r1329(P, W, rep)
+    r1331(P, rep)
+    r1332(P, rep)
     for rule, fam in (('R13.13', LD.r1313_function), ('R13.14', LD.r1314_declspec), ('R13.15', LD.r1315_typing), ('R13.16', LD.r1316_constexpr)):
         try:
             fam(P, rep, rule)
@@ -1498,6 +1512,20 @@ def r1327(P, rep):
     lib_c13sep.run(P, rep)
 
 
+def r1331(P, rep):
+    """an output that cannot be written is answered with a diagnostic: the result of flushing every stream opened for writing a file is examined after the last write
+    (sa/lib_c13out.py)"""
+    from .. import lib_c13out
+    lib_c13out.run(P, rep)
+
+
+def r1332(P, rep):
+    """R13.32 (every postfix-expression form reaches the operator loop) and R13.33 (separately built equal types are compatible): sa/lib_c13post.py"""
+    from .. import lib_c13post
+    lib_c13post.run_postfix(P, rep)
+    lib_c13post.run_compat(P, rep)
+
+
 def r1329(P, W, rep):
     """R13.29 phase globals (a pointer global the code itself resets to NULL is dereferenced only in an established state, per phase) and R13.30 (the position field of a
     diagnostic about a missing field value travels with that field): sa/lib_c13glob.py"""
@@ -2436,6 +2464,65 @@ def r1317(P, W, rep, tier):
     if 'asserts_not_judged' in rep.extra:
         rep.extra['asserts_not_judged'] = [k for k in rep.extra['asserts_not_judged'] if k != 'codegen.c:%s:assert(%s)' % (f0, _canon(cond0))]
     rep.extra['R13.17'] = {'assertion': 'codegen.c:%s:assert(%s)' % (f0, _canon(cond0)), 'obligations_of_C20_reissued': n}
+    rep.extra['R13.17']['calls_under_register_pressure'] = _r1317_pressure(P, rep, why, where)
+
+
+def _r1317_pressure(P, rep, why, where):
+    """the sites of the call sequence that decide 'this aggregate travels in registers' (what is pushed as a memory argument, what is popped into a register after the
+    arguments were evaluated) have to agree for every state of BOTH register counters: an aggregate of one class after the registers of the OTHER class have run out, with
+    one register left, with none left.  C20's R20.5 visits each argument class once; here every aggregate shape of the psABI vocabulary is put behind k integer and l floating
+    scalars for every (k, l) of the register-exhaustion grid of C06, and the emitted sequence is run on the term machine: the slots pushed for the call are released and
+    `depth` is back at its value before the call.  A sequence that takes more off the stack than it pushed is a definite imbalance (the assertion fails), not a limit of
+    the analysis."""
+    from ..report import Report
+    from ..chibi import CG
+    from ..lib_abi import Builder, STRUCTS, CLASS_ONLY
+    from ..x86 import Unknown
+    from ..interp import Unsupported
+    from . import c20
+    from .c06 import run_caller
+    ks, ls = (0, 5, 6, 7), (0, 7, 8, 9)
+    corners = ((ks[0], ls[0]), (ks[-1], ls[0]), (ks[0], ls[-1]), (ks[-1], ls[-1]))
+    cg = CG(P)
+    B = Builder(P)
+    n = 0
+    with c20._shapes():
+        _S = STRUCTS
+        shapes = sorted(_S)
+        for t in shapes:
+            size = _S[t][0]
+            reduced = t in CLASS_ONLY or size > 16        # classification-only shapes and aggregates that are in memory whatever the counters say: the corners
+            for k in ks:
+                for l in ls:
+                    if reduced and (k, l) not in corners:
+                        continue
+                    for depth0 in (0, 1):
+                        if depth0 == 1 and (k, l) not in corners[1:]:
+                            continue
+                        if reduced and depth0 != (1 if (k, l) == corners[-1] else 0):
+                            continue
+                        types = ['long'] * k + ['double'] * l + [t, 'int', 'double']
+                        key = 'codegen.c:ND_FUNCALL:%s-after-%dgp-%dsse/depth%d:pushed-slots-released' % (t, k, l, depth0)
+                        n += 1
+                        try:
+                            ctx, tr, s = run_caller(cg, B, types, 'int', depth0)
+                        except Unknown as e:
+                            m = str(e)
+                            if 'pop from an empty abstract stack' in m and 'x87' not in m or 'beyond the abstract stack' in m:
+                                rep.ob('R13.17', key, False, why + 'for a call that passes an aggregate of shape %s after %d integer and %d floating scalar arguments the emitted sequence takes more off the '
+                                       'machine stack than it pushed for the call (%s): the decision "this argument travels in registers" made when the arguments are pushed and the one made when they '
+                                       'are popped into registers disagree, so `depth` ends below its value before the call' % (t, k, l, m), where=where)
+                            else:
+                                rep.undecided('R13.17', key, m, where=where)
+                            continue
+                        except (AnalysisBroken, Unsupported) as e:
+                            rep.undecided('R13.17', key, 'the call sequence cannot be interpreted: %s' % e, where=where)
+                            continue
+                        dd = ctx.globals.get('depth')
+                        rep.ob('R13.17', key, len(s.stack) == 0 and dd == depth0,
+                               why + 'after a call that passes an aggregate of shape %s after %d integer and %d floating scalar arguments %d pushed slot(s) are still on the stack and `depth` is %r (was %d)'
+                               % (t, k, l, len(s.stack), dd, depth0), where=where, facts={'trace': tr.text()[-12:]})
+    return {'calls_interpreted': n, 'grid': {'integer_scalars_before': list(ks), 'floating_scalars_before': list(ls)}, 'shapes': shapes}
 
 
 # --------------------------------------------------------------------------------------------
